@@ -128,6 +128,14 @@ class TextObject:
             )
         return start, end
 
+    def spans_nothing(self, document: Document) -> bool:
+        """
+        True when the motion failed or didn't span anything. (Operators should
+        not do anything in that case.)
+        """
+        start, end = self.operator_range(document)
+        return self.type != TextObjectType.LINEWISE and start >= end
+
     def get_line_numbers(self, buffer: Buffer) -> tuple[int, int]:
         """
         Return a (start_line, end_line) pair.
@@ -1215,6 +1223,8 @@ def load_vi_bindings() -> KeyBindingsBase:
         Indent.
         """
         buff = event.current_buffer
+        if text_object.spans_nothing(buff.document):
+            return
         from_, to = text_object.get_line_numbers(buff)
         indent(buff, from_, to + 1, count=event.arg)
 
@@ -1224,6 +1234,8 @@ def load_vi_bindings() -> KeyBindingsBase:
         Unindent.
         """
         buff = event.current_buffer
+        if text_object.spans_nothing(buff.document):
+            return
         from_, to = text_object.get_line_numbers(buff)
         unindent(buff, from_, to + 1, count=event.arg)
 
@@ -1233,6 +1245,8 @@ def load_vi_bindings() -> KeyBindingsBase:
         Reshape text.
         """
         buff = event.current_buffer
+        if text_object.spans_nothing(buff.document):
+            return
         from_, to = text_object.get_line_numbers(buff)
         reshape_text(buff, from_, to)
 
@@ -1563,8 +1577,13 @@ def load_vi_bindings() -> KeyBindingsBase:
         """
         Implements 'cj', 'dj', 'j', ... Cursor up.
         """
+        document = event.current_buffer.document
+        if document.on_last_line:
+            # Already at the last line: the motion fails. (Like in Vi, the
+            # operator does nothing then.)
+            return TextObject(0)
         return TextObject(
-            event.current_buffer.document.get_cursor_down_position(count=event.arg),
+            document.get_cursor_down_position(count=event.arg),
             type=TextObjectType.LINEWISE,
         )
 
@@ -1573,8 +1592,13 @@ def load_vi_bindings() -> KeyBindingsBase:
         """
         Implements 'ck', 'dk', 'k', ... Cursor up.
         """
+        document = event.current_buffer.document
+        if document.on_first_line:
+            # Already at the first line: the motion fails. (Like in Vi, the
+            # operator does nothing then.)
+            return TextObject(0)
         return TextObject(
-            event.current_buffer.document.get_cursor_up_position(count=event.arg),
+            document.get_cursor_up_position(count=event.arg),
             type=TextObjectType.LINEWISE,
         )
 
